@@ -826,6 +826,7 @@ func dhcpSeeds(alpha []dEvent) [][]int {
 		{find("capture", 0, ""), d1, find("discover", 1, "other"), r1},  // a captured client acknowledged the address that is also on offer to a client of the home subnet
 		{find("discover", 3, "none"), find("discover", 0, "other"), r1}, // the address on offer to c4 was acknowledged to c1 (same hardware address)
 		{find("discover", 0, "free"), r1},                               // c1 bound to the address that a station with a static configuration uses later ("seen")
+		{d1, r1, d1, find("capture", 0, "")},                            // a bound client that is negotiating again is captured: its next message moves it to the other subnet
 	}
 }
 
